@@ -3,6 +3,7 @@
 -/
 import NutsModel.C05.Forms
 import NutsProofs.Lemmas.C05
+import NutsModel.C05.Today
 
 namespace Nuts.C05
 
@@ -297,11 +298,56 @@ theorem handleResponse_keeps_dead (c : Sq) (st : Store) (r : VpResponse) (k : Ke
           · simpa using h
           · exact validateNonce_keeps_dead c st (p :: ps) state k h
 
+theorem gadOnly_keeps_dead (c : Sq) (st : Store) (k k' : Key) (h : stGet c.incl st c.now k = none) :
+    stGet c.incl (gadSeq c st k').2 c.now k = none := gadSeq_keeps_dead c st k k' h
+
+theorem handleReqObj_snd (c : Sq) (st : Store) (r : ReqObjFetch) : (handleReqObj c st r).2 = (gadSeq c st (reqObjKey r.id)).2 := by
+  unfold handleReqObj
+  cases hg : gadSeq c st (reqObjKey r.id) with
+  | mk o st1 =>
+    cases o with
+    | none => rfl
+    | some v => simp only; split <;> (try split) <;> (try split) <;> rfl
+
+theorem handleLanding_snd (c : Sq) (st : Store) (t : String) (ht : t ≠ "") : (handleLanding c st t).2 = (gadSeq c st (redirectKey t)).2 := by
+  unfold handleLanding
+  simp only [ht, if_false]
+  cases hg : gadSeq c st (redirectKey t) with
+  | mk o st1 => cases o <;> rfl
+
+theorem handleLanding_keeps_dead (c : Sq) (st : Store) (t : String) (k : Key) (h : stGet c.incl st c.now k = none) :
+    stGet c.incl (handleLanding c st t).2 c.now k = none := by
+  by_cases ht : t = ""
+  · unfold handleLanding; simp [ht, h]
+  · rw [handleLanding_snd c st t ht]; exact gadSeq_keeps_dead c st k _ h
+
+theorem handleDpop_keeps_dead (c : Sq) (st : Store) (r : DpopReq) (k : Key) (b : BurnKind) (hk : k.ns = .burn b)
+    (h : stGet c.incl st c.now k = none) : stGet c.incl (handleDpop c st r).2 c.now k = none := by
+  unfold handleDpop
+  split
+  · simpa using h
+  · split
+    · simpa using h
+    · split
+      · simpa using h
+      · split
+        · simpa using h
+        · unfold pifSeq
+          cases hg : stGet c.incl st c.now (jtiKey r.jti) with
+          | some v => simpa using h
+          | none =>
+            simp only
+            apply stGet_none_put_ne _ _ _ _ _ _ _ h
+            intro he; rw [he] at hk; simp [jtiKey] at hk
+
 theorem handleForm_keeps_dead (c : Sq) (pk : Pkce) (st : Store) (f : Form) (k : Key) (b : BurnKind) (hk : k.ns = .burn b)
     (h : stGet c.incl st c.now k = none) : stGet c.incl (handleForm c pk st f).2 c.now k = none := by
   cases f with
   | token t => exact handleToken_keeps_dead c pk st t k b hk h
   | response r => exact handleResponse_keeps_dead c st r k h
+  | reqObj r => simp only [handleForm]; rw [handleReqObj_snd]; exact gadSeq_keeps_dead c st k _ h
+  | landing t => exact handleLanding_keeps_dead c st t k h
+  | dpop r => exact handleDpop_keeps_dead c st r k b hk h
 
 /-- a burn-on-use key that cannot be read stays unreadable through any sequence of requests, however much time passes -/
 theorem runForms_keeps_dead (incl : Bool) (ttl : Kind → Nat) (pk : Pkce) (k : Key) (b : BurnKind) (hk : k.ns = .burn b)
@@ -315,5 +361,570 @@ theorem runForms_keeps_dead (incl : Bool) (ttl : Kind → Nat) (pk : Pkce) (k : 
     simp only [runForms]
     apply ih
     exact handleForm_keeps_dead ⟨incl, now + dt, ttl⟩ pk st f k b hk (stGet_none_later incl st now dt k h)
+
+/-- the outcome and the store after a code request ran alone through GetAndDelete-under-the-mutex and its deferred Delete -/
+def soloOutcome (cfg : Cfg) (st : Store) (now : Nat) (r : BurnReq) : Outcome × Store :=
+  if !r.pre then (.missingParam, stErase st r.key)
+  else match stGet cfg.expInclusive st now r.key with
+    | none => (.notFound, stErase st r.key)
+    | some v => (verdict r (some v), stErase (stErase st r.key) r.key)
+
+def soloSched : List Ev := [.step 0, .step 0, .step 0, .step 0, .step 0]
+
+theorem solo_code_run (cfg : Cfg) (hl : cfg.gad = .locked) (hx : cfg.ext .code = false) (r : BurnReq) (hk : r.kind = .code)
+    (hfg : r.failGet = false) (hfd : r.failDel = false) (st : Store) (now : Nat) :
+    let w := run cfg soloSched { store := st, now := now, lock := none, ths := [.burn r .start 0] }
+    (w.ths[0]?.bind Thread.outcome) = some (soloOutcome cfg st now r).1 ∧ w.store = (soloOutcome cfg st now r).2 ∧ w.lock = none := by
+  cases hpre : r.pre with
+  | false =>
+    simp [run, soloSched, applyEv, stepW, stepThread, stepBurn, soloOutcome, hpre, Thread.outcome, hfd]
+  | true =>
+    cases hget : stGet cfg.expInclusive st now r.key with
+    | none =>
+      simp [run, soloSched, applyEv, stepW, stepThread, stepBurn, soloOutcome, hpre, hget, Thread.outcome, Cfg.gadLocks, hl,
+        afterGad, verdict, finishBurn, hk, hx, unlock, hfg, hfd]
+    | some v =>
+      simp [run, soloSched, applyEv, stepW, stepThread, stepBurn, soloOutcome, hpre, hget, Thread.outcome, Cfg.gadLocks, hl,
+        afterGad, finishBurn, hk, hx, unlock, hfg, hfd]
+
+
+theorem codeOutcome_ok : codeOutcome .ok = some .ok := by decide
+theorem codeOutcome_e1 : codeOutcome (errAt Facts.C05.errs_handleAccessTokenRequest 1) = some .missingParam := by decide
+theorem codeOutcome_e2 : codeOutcome (errAt Facts.C05.errs_handleAccessTokenRequest 2) = some .missingParam := by decide
+theorem codeOutcome_e3 : codeOutcome (errAt Facts.C05.errs_handleAccessTokenRequest 3) = some .notFound := by decide
+theorem codeOutcome_e4 : codeOutcome (errAt Facts.C05.errs_handleAccessTokenRequest 4) = some .mismatch := by decide
+theorem codeOutcome_e5 : codeOutcome (errAt Facts.C05.errs_handleAccessTokenRequest 5) = some .postCheck := by decide
+theorem codeOutcome_dpop : codeOutcome (errAt Facts.C05.errs_dpopFromRequest 0) = some .postCheck := by decide
+
+/-- the code handler, statement by statement, computes what its thread computes when it runs alone -/
+theorem handleCode_eq_solo (cfg : Cfg) (ttl : Kind → Nat) (pk : Pkce) (now : Nat) (st : Store) (f : TokenForm) (r : BurnReq)
+    (hr : f.toBurn pk = some r) :
+    codeOutcome (handleCode ⟨cfg.expInclusive, now, ttl⟩ pk st f).1 = some (soloOutcome cfg st now r).1 ∧
+    (handleCode ⟨cfg.expInclusive, now, ttl⟩ pk st f).2 = (soloOutcome cfg st now r).2 := by
+  unfold TokenForm.toBurn at hr
+  cases hc : f.code with
+  | none => simp [hc] at hr
+  | some code =>
+    simp only [hc, Option.some.injEq] at hr
+    subst hr
+    unfold handleCode soloOutcome
+    simp only [hc, BurnReq.key]
+    cases hv : f.codeVerifier with
+    | none => simp [codeOutcome_e1, codeKey]
+    | some ver =>
+      cases hi : f.clientId with
+      | none => simp [codeOutcome_e2, codeKey]
+      | some cid =>
+        simp only [Option.isSome_some, Bool.and_self, Bool.not_true, Bool.false_eq_true, if_false, Option.getD_some]
+        unfold gadSeq
+        simp only [codeKey]
+        cases hg : stGet cfg.expInclusive st now ⟨.burn .code, code⟩ with
+        | none => simp [codeOutcome_e3]
+        | some v =>
+          simp only [verdict]
+          by_cases hm : v = cid
+          · subst hm
+            cases hp : validatePKCE pk ver with
+            | false => simp [codeOutcome_e5]
+            | true =>
+              cases hd : f.dpop with
+              | bad => simp [dpopCheck, codeOutcome_dpop]
+              | absent => simp [dpopCheck, codeOutcome_ok]
+              | good => simp [dpopCheck, codeOutcome_ok]
+          · simp [hm, codeOutcome_e4]
+
+theorem stGet_put_ne (incl : Bool) (s : Store) (now : Nat) (k k' : Key) (e : Entry) (hk : k ≠ k') :
+    stGet incl (stPut s k' e) now k = stGet incl s now k := by
+  unfold stGet; rw [stFind_put_ne s k' k e hk]
+
+theorem stGet_put_self (incl : Bool) (s : Store) (now : Nat) (k : Key) (e : Entry) (h : now < e.exp) :
+    stGet incl (stPut s k e) now k = some e.val := by
+  unfold stGet; rw [stFind_put_self]; simp [alive, h]
+
+theorem s2sKey_inj (a b : String) (h : s2sKey a = s2sKey b) : a = b := by
+  simp [s2sKey] at h; exact h
+
+/-- a registered nonce stays registered through the loop -/
+theorem s2sLoop_keeps_marked (c : Sq) (ns : List String) (k : Key) :
+    ∀ st, stGet c.incl st c.now k ≠ none → stGet c.incl (s2sLoop c st ns).2 c.now k ≠ none := by
+  induction ns with
+  | nil => intro st h; simpa [s2sLoop] using h
+  | cons n rest ih =>
+    intro st h
+    unfold s2sLoop
+    by_cases hn : n = ""
+    · simp [hn, h]
+    · simp only [hn, if_false]
+      unfold pifSeq
+      cases hg : stGet c.incl st c.now (s2sKey n) with
+      | some v => simpa using h
+      | none =>
+        simp only
+        apply ih
+        have hne : k ≠ s2sKey n := by intro he; rw [he] at h; exact h hg
+        rw [stGet_put_ne _ _ _ _ _ _ hne]; exact h
+
+/-- an envelope is accepted only if its nonces are pairwise different, all present, all unused — and then all are registered -/
+theorem s2sLoop_ok (c : Sq) (httl : 0 < c.ttl (.mark .s2s)) (ns : List String) :
+    ∀ st, (s2sLoop c st ns).1 = .ok →
+      ns.Nodup ∧ (∀ n ∈ ns, n ≠ "" ∧ stGet c.incl st c.now (s2sKey n) = none) ∧
+      (∀ n ∈ ns, stGet c.incl (s2sLoop c st ns).2 c.now (s2sKey n) ≠ none) := by
+  induction ns with
+  | nil => intro st _; simp
+  | cons n rest ih =>
+    intro st h
+    unfold s2sLoop at h ⊢
+    by_cases hn : n = ""
+    · simp [hn, errAt_ne_ok] at h
+    · simp only [hn, if_false] at h ⊢
+      unfold pifSeq at h ⊢
+      cases hg : stGet c.incl st c.now (s2sKey n) with
+      | some v => simp [hg, errAt_ne_ok] at h
+      | none =>
+        simp only [hg] at h ⊢
+        have hput : stGet c.incl (stPut st (s2sKey n) ⟨markVal .s2s, c.now + c.ttl (s2sKey n).ns⟩) c.now (s2sKey n) ≠ none := by
+          rw [stGet_put_self]; · simp
+          show c.now < c.now + c.ttl (.mark .s2s); omega
+        obtain ⟨hnd, hfresh, hmarked⟩ := ih _ h
+        have hnotin : n ∉ rest := by
+          intro hin
+          exact hput (hfresh n hin).2
+        refine ⟨List.nodup_cons.mpr ⟨hnotin, hnd⟩, ?_, ?_⟩
+        · intro m hm
+          cases List.mem_cons.mp hm with
+          | inl he => subst he; exact ⟨hn, hg⟩
+          | inr hr =>
+            have hmn : s2sKey m ≠ s2sKey n := by
+              intro he; exact hnotin (s2sKey_inj _ _ he ▸ hr)
+            have := (hfresh m hr).2
+            rw [stGet_put_ne _ _ _ _ _ _ hmn] at this
+            exact ⟨(hfresh m hr).1, this⟩
+        · intro m hm
+          cases List.mem_cons.mp hm with
+          | inl he => subst he; exact s2sLoop_keeps_marked c rest _ _ hput
+          | inr hr => exact hmarked m hr
+
+/-- an envelope that contains a registered nonce is refused -/
+theorem s2sLoop_refuses_used (c : Sq) (ns : List String) (n : String) (hn : n ∈ ns) :
+    ∀ st, stGet c.incl st c.now (s2sKey n) ≠ none → (s2sLoop c st ns).1 ≠ .ok := by
+  induction ns with
+  | nil => cases hn
+  | cons m rest ih =>
+    intro st h
+    unfold s2sLoop
+    by_cases hm : m = ""
+    · simp [hm, errAt_ne_ok]
+    · simp only [hm, if_false]
+      unfold pifSeq
+      cases hg : stGet c.incl st c.now (s2sKey m) with
+      | some v => simp [errAt_ne_ok]
+      | none =>
+        simp only
+        cases List.mem_cons.mp hn with
+        | inl he => subst he; exact absurd hg h
+        | inr hr =>
+          apply ih hr
+          have hne : s2sKey n ≠ s2sKey m := by intro he; rw [he] at h; exact h hg
+          rw [stGet_put_ne _ _ _ _ _ _ hne]; exact h
+
+theorem alive_of_lt (incl : Bool) (now exp : Nat) (h : now < exp) : alive incl now exp = true := by
+  simp [alive, h]
+
+theorem stGet_of_find_live (incl : Bool) (s : Store) (now : Nat) (k : Key) (e : Entry) (hf : stFind s k = some e) (h : now < e.exp) :
+    stGet incl s now k = some e.val := by
+  unfold stGet; simp [hf, alive_of_lt incl now e.exp h]
+
+/-- a live registration is not touched by the nonce loop (a hit stores nothing; other nonces are other keys) -/
+theorem s2sLoop_keeps_find_live (c : Sq) (ns : List String) (k : Key) (e : Entry) (hl : c.now < e.exp) :
+    ∀ st, stFind st k = some e → stFind (s2sLoop c st ns).2 k = some e := by
+  induction ns with
+  | nil => intro st h; simpa [s2sLoop] using h
+  | cons n rest ih =>
+    intro st h
+    unfold s2sLoop
+    by_cases hn : n = ""
+    · simp [hn, h]
+    · simp only [hn, if_false]
+      unfold pifSeq
+      cases hg : stGet c.incl st c.now (s2sKey n) with
+      | some v => simpa using h
+      | none =>
+        simp only
+        apply ih
+        have hne : k ≠ s2sKey n := by
+          intro he; rw [he] at h; rw [stGet_of_find_live c.incl st c.now _ e h hl] at hg; cases hg
+        rw [stFind_put_ne _ _ _ _ hne]; exact h
+
+theorem handleS2S_snd (c : Sq) (st : Store) (f : TokenForm) (ns : List String) : (handleS2S c st f ns).2 = (s2sLoop c st ns).2 := by
+  unfold handleS2S
+  cases hl : s2sLoop c st ns with
+  | mk a st1 =>
+    cases a with
+    | ok => simp only; split <;> rfl
+    | err _ _ => rfl
+    | panic _ => rfl
+
+theorem gadSeq_keeps_find (c : Sq) (st : Store) (k k' : Key) (hne : k ≠ k') : stFind (gadSeq c st k').2 k = stFind st k := by
+  unfold gadSeq
+  cases stGet c.incl st c.now k' with
+  | none => rfl
+  | some v => simp [stFind_erase_ne _ _ _ hne]
+
+theorem handleCode_keeps_find (c : Sq) (pk : Pkce) (st : Store) (f : TokenForm) (k : Key) (hk : k.ns ≠ .burn .code) :
+    stFind (handleCode c pk st f).2 k = stFind st k := by
+  have hne : ∀ code, k ≠ codeKey code := by intro code he; rw [he] at hk; exact hk rfl
+  unfold handleCode
+  cases hc : f.code with
+  | none => rfl
+  | some code =>
+    cases hv : f.codeVerifier with
+    | none => simp [stFind_erase_ne _ _ _ (hne code)]
+    | some ver =>
+      cases hi : f.clientId with
+      | none => simp [stFind_erase_ne _ _ _ (hne code)]
+      | some cid =>
+        have h2 := gadSeq_keeps_find c st k (codeKey code) (hne code)
+        cases hg : gadSeq c st (codeKey code) with
+        | mk o st1 =>
+          rw [hg] at h2
+          simp only at h2
+          simp only [hg]
+          cases o with
+          | none => simp [stFind_erase_ne _ _ _ (hne code), h2]
+          | some v =>
+            simp only
+            split
+            · simp [stFind_erase_ne _ _ _ (hne code), h2]
+            · split
+              · simp [stFind_erase_ne _ _ _ (hne code), h2]
+              · split <;> simp [stFind_erase_ne _ _ _ (hne code), h2]
+
+theorem burnAll_keeps_find (ns : List String) (k : Key) (hk : k.ns ≠ .burn .vpNonce) :
+    ∀ st, stFind (burnAll st ns) k = stFind st k := by
+  induction ns with
+  | nil => intro st; rfl
+  | cons n rest ih =>
+    intro st
+    simp only [burnAll, List.foldl_cons]
+    have hne : k ≠ vpKey n := by intro he; rw [he] at hk; exact hk rfl
+    have := ih (stErase st (vpKey n))
+    simp only [burnAll] at this
+    rw [this, stFind_erase_ne _ _ _ hne]
+
+theorem validateNonce_keeps_find (c : Sq) (st : Store) (ps : List Pres) (state : String) (k : Key) (hk : k.ns ≠ .burn .vpNonce) :
+    stFind (validateNonce c st ps state).2 k = stFind st k := by
+  unfold validateNonce
+  simp only
+  by_cases he : nonceErrs (collect ps) > 0
+  · simp only [he, if_true]; exact burnAll_keeps_find _ k hk st
+  · simp only [he, if_false]
+    cases hn : (collect ps).nonces with
+    | nil => rfl
+    | cons n rest =>
+      simp only
+      have hne : k ≠ vpKey n := by intro he; rw [he] at hk; exact hk rfl
+      have h2 := gadSeq_keeps_find c st k (vpKey n) hne
+      cases hg : gadSeq c st (vpKey n) with
+      | mk o st1 =>
+        rw [hg] at h2
+        cases o with
+        | none => simpa using h2
+        | some s => simp only; split <;> simpa using h2
+
+/-- no request of either endpoint removes or replaces a live registration of an s2s nonce -/
+theorem handleForm_keeps_find_live (c : Sq) (pk : Pkce) (st : Store) (f : Form) (n : String) (e : Entry) (hl : c.now < e.exp)
+    (h : stFind st (s2sKey n) = some e) : stFind (handleForm c pk st f).2 (s2sKey n) = some e := by
+  have hk1 : (s2sKey n).ns ≠ .burn .code := by simp [s2sKey]
+  have hk2 : (s2sKey n).ns ≠ .burn .vpNonce := by simp [s2sKey]
+  cases f with
+  | token t =>
+    simp only [handleForm]
+    unfold handleToken
+    simp only
+    split
+    · rw [handleCode_keeps_find c pk st t _ hk1]; exact h
+    · split
+      · cases t.assertion with
+        | none => simpa using h
+        | some ns =>
+          simp only
+          split
+          · simpa using h
+          · rw [handleS2S_snd]; exact s2sLoop_keeps_find_live c ns _ e hl st h
+      · split <;> simpa using h
+  | response r =>
+    simp only [handleForm]
+    unfold handleResponse
+    simp only
+    cases r.state with
+    | none => simpa using h
+    | some state =>
+      cases r.vpToken with
+      | none => simpa using h
+      | some ps =>
+        cases ps with
+        | nil => simpa using h
+        | cons p ps =>
+          simp only
+          split
+          · simpa using h
+          · split
+            · simpa using h
+            · rw [validateNonce_keeps_find c st (p :: ps) state _ hk2]; exact h
+  | reqObj r =>
+    simp only [handleForm]
+    rw [handleReqObj_snd, gadSeq_keeps_find c st _ _ (by simp [s2sKey, reqObjKey])]; exact h
+  | landing t =>
+    simp only [handleForm]
+    by_cases ht : t = ""
+    · unfold handleLanding; simp [ht, h]
+    · rw [handleLanding_snd c st t ht, gadSeq_keeps_find c st _ _ (by simp [s2sKey, redirectKey])]; exact h
+  | dpop r =>
+    simp only [handleForm]
+    unfold handleDpop
+    split
+    · simpa using h
+    · split
+      · simpa using h
+      · split
+        · simpa using h
+        · split
+          · simpa using h
+          · unfold pifSeq
+            cases hg : stGet c.incl st c.now (jtiKey r.jti) with
+            | some v => simpa using h
+            | none =>
+              simp only
+              rw [stFind_put_ne _ _ _ _ (by simp [s2sKey, jtiKey])]; exact h
+
+theorem runForms_time_ge (incl : Bool) (ttl : Kind → Nat) (pk : Pkce) (fs : List (Nat × Form)) :
+    ∀ now st, now ≤ (runForms incl ttl pk now st fs).2.2 := by
+  induction fs with
+  | nil => intro now st; simp [runForms]
+  | cons x rest ih =>
+    intro now st
+    obtain ⟨dt, f⟩ := x
+    simp only [runForms]
+    have := ih (now + dt) (handleForm ⟨incl, now + dt, ttl⟩ pk st f).2
+    omega
+
+/-- a registration outlives any sequence of requests that ends before its expiry -/
+theorem runForms_keeps_find_live (incl : Bool) (ttl : Kind → Nat) (pk : Pkce) (n : String) (e : Entry) (fs : List (Nat × Form)) :
+    ∀ now st, stFind st (s2sKey n) = some e → (runForms incl ttl pk now st fs).2.2 < e.exp →
+      stFind (runForms incl ttl pk now st fs).2.1 (s2sKey n) = some e := by
+  induction fs with
+  | nil => intro now st h _; simpa [runForms] using h
+  | cons x rest ih =>
+    intro now st h hend
+    obtain ⟨dt, f⟩ := x
+    simp only [runForms] at hend ⊢
+    have hge := runForms_time_ge incl ttl pk rest (now + dt) (handleForm ⟨incl, now + dt, ttl⟩ pk st f).2
+    apply ih _ _ _ hend
+    exact handleForm_keeps_find_live ⟨incl, now + dt, ttl⟩ pk st f n e (by show now + dt < e.exp; omega) h
+
+/-- an accepted envelope registers each of its nonces until now + ttl -/
+theorem s2sLoop_ok_find (c : Sq) (httl : 0 < c.ttl (.mark .s2s)) (ns : List String) :
+    ∀ st, (s2sLoop c st ns).1 = .ok → ∀ n ∈ ns, ∃ e, stFind (s2sLoop c st ns).2 (s2sKey n) = some e ∧ e.exp = c.now + c.ttl (.mark .s2s) := by
+  induction ns with
+  | nil => intro st _ n hn; cases hn
+  | cons m rest ih =>
+    intro st h n hn
+    unfold s2sLoop at h ⊢
+    by_cases hm : m = ""
+    · simp [hm, errAt_ne_ok] at h
+    · simp only [hm, if_false] at h ⊢
+      unfold pifSeq at h ⊢
+      cases hg : stGet c.incl st c.now (s2sKey m) with
+      | some v => simp [hg, errAt_ne_ok] at h
+      | none =>
+        simp only [hg] at h ⊢
+        cases List.mem_cons.mp hn with
+        | inl he =>
+          subst he
+          refine ⟨⟨markVal .s2s, c.now + c.ttl (.mark .s2s)⟩, ?_, rfl⟩
+          apply s2sLoop_keeps_find_live c rest _ _ (by show c.now < c.now + c.ttl (.mark .s2s); omega)
+          exact stFind_put_self _ _ _
+        | inr hr => exact ih _ h n hr
+
+theorem nonceStep_mono (a : NAcc) (p : Pres) (x : String) (h : x ∈ a.nonces) : x ∈ (nonceStep a p).nonces := by
+  unfold nonceStep
+  simp only
+  split
+  · exact List.mem_append_left _ h
+  · exact h
+
+theorem foldl_nonceStep_mono (ps : List Pres) : ∀ (a : NAcc) (x : String), x ∈ a.nonces → x ∈ (ps.foldl nonceStep a).nonces := by
+  induction ps with
+  | nil => intro a x h; exact h
+  | cons p rest ih => intro a x h; exact ih _ x (nonceStep_mono a p x h)
+
+theorem nonceStep_adds (a : NAcc) (p : Pres) (h : presNonce p ≠ "") : presNonce p ∈ (nonceStep a p).nonces := by
+  unfold nonceStep
+  simp only
+  by_cases hc : a.nonces.contains (presNonce p) = true
+  · simp only [hc, Bool.not_true, Bool.and_false, Bool.false_eq_true, if_false]
+    exact List.contains_iff_mem.mp hc
+  · simp only [Bool.not_eq_true] at hc
+    simp only [hc, Bool.not_false, Bool.and_true, bne_iff_ne, ne_eq, h, not_false_eq_true, if_true]
+    exact List.mem_append_right _ (List.mem_singleton.mpr rfl)
+
+/-- every nonce a presentation carries is collected -/
+theorem foldl_nonceStep_collects (ps : List Pres) : ∀ (a : NAcc) (p : Pres), p ∈ ps → presNonce p ≠ "" →
+    presNonce p ∈ (ps.foldl nonceStep a).nonces := by
+  induction ps with
+  | nil => intro a p hp; cases hp
+  | cons q rest ih =>
+    intro a p hp hne
+    simp only [List.foldl_cons]
+    cases List.mem_cons.mp hp with
+    | inl he => subst he; exact foldl_nonceStep_mono rest _ _ (nonceStep_adds a p hne)
+    | inr hr => exact ih _ p hr hne
+
+/-- `allPresent` survives the loop only if every presentation carries a nonce -/
+theorem foldl_nonceStep_allPresent (ps : List Pres) : ∀ (a : NAcc), (ps.foldl nonceStep a).allPresent = true →
+    a.allPresent = true ∧ ∀ p ∈ ps, presNonce p ≠ "" := by
+  induction ps with
+  | nil => intro a h; exact ⟨h, by intro p hp; cases hp⟩
+  | cons q rest ih =>
+    intro a h
+    simp only [List.foldl_cons] at h
+    obtain ⟨h1, h2⟩ := ih _ h
+    unfold nonceStep at h1
+    simp only [Bool.and_eq_true, bne_iff_ne, ne_eq] at h1
+    refine ⟨h1.1, ?_⟩
+    intro p hp
+    cases List.mem_cons.mp hp with
+    | inl he => subst he; exact h1.2
+    | inr hr => exact h2 p hr
+
+/-- the nonce check passes only if ALL presentations carry one and the same nonce, that nonce is stored, and it is stored for
+    the state of this response -/
+theorem validateNonce_ok (c : Sq) (st : Store) (ps : List Pres) (state : String) (h : (validateNonce c st ps state).1 = .ok) :
+    ∃ n, n ≠ "" ∧ (∀ p ∈ ps, presNonce p = n) ∧ stGet c.incl st c.now (vpKey n) = some state := by
+  unfold validateNonce at h
+  simp only at h
+  by_cases he : nonceErrs (collect ps) > 0
+  · simp [he, errAt_ne_ok] at h
+  · simp only [he, if_false] at h
+    have hle := nonces_le_one _ he
+    have hall : (collect ps).allPresent = true := by
+      unfold nonceErrs at he
+      cases hp : (collect ps).allPresent with
+      | true => rfl
+      | false => simp [hp] at he
+    cases hc : (collect ps).nonces with
+    | nil => simp [hc] at h
+    | cons n rest =>
+      rw [hc] at hle
+      have hrest : rest = [] := by
+        cases rest with
+        | nil => rfl
+        | cons x xs => simp at hle
+      subst hrest
+      simp only [hc] at h
+      unfold gadSeq at h
+      cases hg : stGet c.incl st c.now (vpKey n) with
+      | none => simp [hg, errAt_ne_ok] at h
+      | some s =>
+        simp only [hg] at h
+        by_cases hs : state = s
+        · subst hs
+          have hpres := (foldl_nonceStep_allPresent ps ⟨true, [], 0⟩ hall).2
+          have hmem : ∀ p ∈ ps, presNonce p = n := by
+            intro p hp
+            have := foldl_nonceStep_collects ps ⟨true, [], 0⟩ p hp (hpres p hp)
+            unfold collect at hc
+            rw [hc] at this
+            simpa using this
+          refine ⟨n, ?_, hmem, hg⟩
+          cases ps with
+          | nil => simp [collect] at hc
+          | cons p0 _ => rw [← hmem p0 (List.mem_cons_self ..)]; exact hpres p0 (List.mem_cons_self ..)
+        · simp [hs, errAt_ne_ok] at h
+
+theorem handleReqObj_kills (c : Sq) (st : Store) (r : ReqObjFetch) : stGet c.incl (handleReqObj c st r).2 c.now (reqObjKey r.id) = none := by
+  rw [handleReqObj_snd]; exact gadSeq_dead c st _
+
+theorem handleReqObj_not_ok_of_dead (c : Sq) (st : Store) (r : ReqObjFetch) (hd : stGet c.incl st c.now (reqObjKey r.id) = none) :
+    (handleReqObj c st r).1 ≠ .ok := by
+  unfold handleReqObj
+  have h1 := gadSeq_none_of_dead c st _ hd
+  cases hg : gadSeq c st (reqObjKey r.id) with
+  | mk o st1 =>
+    rw [hg] at h1
+    simp only at h1
+    subst h1
+    simp [errAt_ne_ok]
+
+theorem handleLanding_kills (c : Sq) (st : Store) (t : String) (ht : t ≠ "") : stGet c.incl (handleLanding c st t).2 c.now (redirectKey t) = none := by
+  rw [handleLanding_snd c st t ht]; exact gadSeq_dead c st _
+
+theorem handleLanding_not_ok_of_dead (c : Sq) (st : Store) (t : String) (hd : stGet c.incl st c.now (redirectKey t) = none) :
+    (handleLanding c st t).1 ≠ .ok := by
+  unfold handleLanding
+  by_cases ht : t = ""
+  · simp [ht]
+  · simp only [ht, if_false]
+    have h1 := gadSeq_none_of_dead c st _ hd
+    cases hg : gadSeq c st (redirectKey t) with
+    | mk o st1 =>
+      rw [hg] at h1
+      simp only at h1
+      subst h1
+      simp
+
+/-- a proof that is not accepted registers nothing -/
+theorem handleDpop_unchanged_on_refusal (c : Sq) (st : Store) (r : DpopReq) (h : (handleDpop c st r).1 ≠ .ok) : (handleDpop c st r).2 = st := by
+  unfold handleDpop at h ⊢
+  split
+  · rfl
+  · split
+    · rfl
+    · split
+      · rfl
+      · split
+        · rfl
+        · rename_i h1 h2 h3 h4
+          simp only [h1, h2, h3, h4, if_false] at h
+          unfold pifSeq at h ⊢
+          cases hg : stGet c.incl st c.now (jtiKey r.jti) with
+          | some v => rfl
+          | none => simp [hg] at h
+
+/-- an accepted proof registers its jti until now + ttl; a proof with the same jti inside that time is refused -/
+theorem handleDpop_replay_refused (c : Sq) (st : Store) (r r2 : DpopReq) (hj : r2.jti = r.jti) (hok : (handleDpop c st r).1 = .ok)
+    (dt : Nat) (hdt : dt < c.ttl (.mark .jti)) :
+    (handleDpop { c with now := c.now + dt } (handleDpop c st r).2 r2).1 ≠ .ok := by
+  have hst : (handleDpop c st r).2 = stPut st (jtiKey r.jti) ⟨markVal .jti, c.now + c.ttl (.mark .jti)⟩ := by
+    unfold handleDpop at hok ⊢
+    split
+    · rename_i h; simp [h] at hok
+    · split
+      · rename_i h1 h; simp [h1, h] at hok
+      · split
+        · rename_i h1 h2 h; simp [h1, h2, h] at hok
+        · split
+          · rename_i h1 h2 h3 h; simp [h1, h2, h3, h] at hok
+          · rename_i h1 h2 h3 h4
+            simp only [h1, h2, h3, h4, if_false] at hok
+            unfold pifSeq at hok ⊢
+            cases hg : stGet c.incl st c.now (jtiKey r.jti) with
+            | some v => simp [hg] at hok
+            | none => rfl
+  rw [hst]
+  have hlive : stGet c.incl (stPut st (jtiKey r.jti) ⟨markVal .jti, c.now + c.ttl (.mark .jti)⟩) (c.now + dt) (jtiKey r.jti) = some (markVal .jti) := by
+    apply stGet_put_self; show c.now + dt < c.now + c.ttl (.mark .jti); omega
+  unfold handleDpop
+  split
+  · simp
+  · split
+    · simp
+    · split
+      · simp
+      · split
+        · simp
+        · unfold pifSeq
+          simp only [hj, hlive]
+          simp
 
 end Nuts.C05
